@@ -96,6 +96,17 @@ let dispatch fn args = match fn, args with
   | "FormDedup", [g; forms; limit] ->
     let (a, b) = formDedupCounts (z_of_hex limit) (graph_of_string g) (zlist_of_string forms) in
     string_of_int (int_of_nat a) ^ "," ^ string_of_int (int_of_nat b)
+  | "UsedNames", [c] ->
+    (match used_names (bytes_of_hex c) with
+     | SErr -> "err"
+     | SUnsupported -> "unsupported"
+     | SFuel -> "fuel"
+     | SOk l ->
+       let cat = function CFont -> "Font" | CXObject -> "XObject" | CExtGState -> "ExtGState"
+                        | CColorSpace -> "ColorSpace" | CPattern -> "Pattern" | CShading -> "Shading"
+                        | CProperties -> "Properties" in
+       let items = List.sort_uniq compare (List.map (fun (c, n) -> cat c ^ ":" ^ hex_of_bytes n) l) in
+       "ok:" ^ String.concat "," items)
   | "Strip", [s] -> hex_of_bytes (strip (bytes_of_hex s))
   | _ -> failwith ("unknown function " ^ fn)
 let () = main dispatch
